@@ -535,6 +535,8 @@ class Machine:
             if isinstance(v, Adt):
                 idx = self.variant_index(v.name, v.variant)
                 return idx if idx is not None else TOP
+            if isinstance(v, T) and v != TOP:
+                return T("discr", v)        # which variant an opaque value is: the match forks over its arms
             return TOP
         if k == "repeat":
             v = self.operand(s, fi, rv["op"])
@@ -654,10 +656,13 @@ class Machine:
                     s2.frames[-1].bb = tg
                     s2.pc = s.pc + ((d, int(val)),)
                     outs.append(s2)
-                s2 = s.clone()
-                s2.frames[-1].bb = t["otherwise"]
-                s2.pc = s.pc + ((d, ("not", tuple(int(v) for v, _ in t["arms"]))),)
-                outs.append(s2)
+                ob = fr.body.blocks[t["otherwise"]]
+                if not (ob["term"]["k"] == "unreachable" and not ob["stmts"]):
+                    # (an `unreachable` default is the compiler's statement that the arms are exhaustive)
+                    s2 = s.clone()
+                    s2.frames[-1].bb = t["otherwise"]
+                    s2.pc = s.pc + ((d, ("not", tuple(int(v) for v, _ in t["arms"]))),)
+                    outs.append(s2)
                 return outs
             if k == "call":
                 res = self._call(s, fi, t)
